@@ -3,7 +3,7 @@ get_next_tasks / update_task_state, computed from the AST with sa.guards."""
 
 import ast
 
-from sa.core import AnalysisError, NotFoldable, norm_src, unparse
+from sa.core import AnalysisError, NotFoldable, norm_src, unparse, untag
 from sa.effects import effects_of, local_def, status_set
 from sa.guards import (FuncGuards, callee_name, calls_in, fmt_atoms, terminates,
                        textually_before)
@@ -203,6 +203,50 @@ def rule_P1(ctx):
             res.holds(inst)
         else:
             res.violated(inst, _f("P1", f, c, norm_src(c), problem))
+    # an empty with-items task (items_count == 0) is offered too - it has no action to wait
+    # for, so this offer is the only thing that ever completes it - under no further condition
+    gate = set()
+    loops_ = [n for n in ast.walk(f.node) if isinstance(n, ast.For)]
+    fg_ = FuncGuards(prog, f)
+    for lp in loops_:
+        gate |= set(fg_.atoms(lp))
+    empties = []
+    for c in appends:
+        for alt in expand_alternatives(f, fg_, [a for a in fg_.atoms(c) if a not in gate]):
+            atoms = [a for a in alt if a not in gate]
+            if any(a[0] == "==" and a[2] == 0 and "items_count" in str(a[1]) for a in atoms):
+                empties.append((c, atoms))
+    if not empties:
+        res.violated(("empty-items",), _f(
+            "P1", f, f.node, "offer of an empty with-items task",
+            "no offer is made for a with-items task whose list is empty (items_count == 0): "
+            "nothing ever completes it and the workflow stays running with nothing in flight"))
+    else:
+        def _flat_(ats):
+            for a in ats:
+                if a[0] in ("or", "and"):
+                    for alt in a[1]:
+                        for x in _flat_(alt):
+                            yield x
+                else:
+                    yield a
+        ok_e = False
+        worst = None
+        for c, atoms in empties:
+            extra = [a for a in _flat_(atoms) if not (
+                "items_count" in str(a[1]) or "actions" in str(a[1])
+                or (a[0] in ("truthy", "falsy") and "has_items" in str(a[1])))]
+            if not extra:
+                ok_e = True
+            else:
+                worst = (c, extra)
+        if ok_e:
+            res.holds(("empty-items",))
+        else:
+            res.violated(("empty-items",), _f(
+                "P1", f, worst[0], "offer of an empty with-items task",
+                "a with-items task whose list is empty is offered only under the further "
+                "condition %s: otherwise nothing ever completes it" % fmt_atoms(worst[1])))
     # sibling agreement
     ws = prog.cls("conducting.WorkflowState")
     hs = prog.lookup_method(ws, "has_staged_tasks")
@@ -244,6 +288,66 @@ def _expand_bool_locals(f, fg, atoms):
         else:
             out.extend(expand(a))
     return out
+
+
+def _truth_alternatives(f, fg, name, polarity, depth=0):
+    """Alternative guard lists under which local `name` is truthy (falsy for polarity False):
+    for a local defined once by a test, that test; for a result temporary of the inlining pass
+    (assigned once per lowered `return`, in mutually exclusive branches), one alternative per
+    assignment = the guards of the assignment plus the truth of the assigned expression.
+    None when the local is not of these kinds."""
+    ds = _defs(f, name)
+    inl = all(True for _ in ds) and any(
+        isinstance(t, ast.Name) and t.id.startswith("__ret__")
+        for d in ds for t in d.targets)
+    if not ds or (len(ds) > 1 and not inl) or depth > 3:
+        return None
+    alts = []
+    for d in ds:
+        v = d.value
+        here = list(fg.atoms(d)) if inl else []
+        if isinstance(v, ast.Constant):
+            if bool(v.value) == polarity:
+                alts.append(here)
+            continue
+        if isinstance(v, ast.Name):
+            sub = _truth_alternatives(f, fg, v.id, polarity, depth + 1)
+            if sub is None:
+                alts.append(here + [("truthy" if polarity else "falsy", v.id, None)])
+            else:
+                alts.extend(here + s_ for s_ in sub)
+            continue
+        if isinstance(v, (ast.Compare, ast.BoolOp, ast.UnaryOp, ast.Call)):
+            alts.append(here + list(fg.norm.conj(v, polarity)))
+            continue
+        return None
+    return alts
+
+
+def expand_alternatives(f, fg, atoms):
+    """The guard list `atoms` as a list of alternative guard lists in which truthy / falsy
+    atoms on boolean locals (see _truth_alternatives) are replaced by what they stand for."""
+    alts = [[]]
+    for a in atoms:
+        sub = None
+        if a[0] in ("truthy", "falsy") and isinstance(a[1], str) and a[1].isidentifier():
+            sub = _truth_alternatives(f, fg, a[1], a[0] == "truthy")
+        if sub is None and a[0] == "or":
+            sub = [list(alt) for alt in a[1]]
+        if sub is None:
+            alts = [x + [a] for x in alts]
+        else:
+            alts = [x + list(s_) for x in alts for s_ in sub][:128]
+    # nested alternatives introduced by the substitution
+    if any(a[0] == "or" for alt in alts for a in alt) and len(alts) < 128:
+        out = []
+        for alt in alts:
+            if any(a[0] == "or" for a in alt):
+                out.extend(expand_alternatives(f, fg, alt))
+            else:
+                out.append(alt)
+        alts = out[:128]
+    return alts
 
 
 # ====================================================================== P2
@@ -1483,6 +1587,28 @@ def rule_P10(ctx):
             "update_task_state no longer marks the reporting task terminal when the workflow "
             "status is completed"))
         return res
+    # a status *request* can complete the workflow as well (cancel or fail with nothing in
+    # flight, resume of a paused workflow that has finished): that entry has to leave terminal
+    # records behind too, or the output cannot be rendered from what was published
+    rws = "conducting.WorkflowConductor.request_workflow_status"
+    evs = effects_of(ctx, rws)
+    from sa.effects import assigned_value, value_is_table_lookup
+    completes = any(e.path == ("WS", "status") and assigned_value(e) is not None
+                    and value_is_table_lookup(prog, e.func, assigned_value(e),
+                                              "WORKFLOW_STATE_MACHINE_DATA") for e in evs)
+    marks = [e for e in evs if e.path[-1:] == ("term",) and e.op == "setitem"]
+    rf = prog.function(rws)
+    if not completes:
+        res.holds(("request",), "request_workflow_status never assigns a table-driven status")
+    elif marks:
+        res.holds(("request",), "terminal records are marked in %s" % marks[0].func.qualname)
+    else:
+        res.violated(("request",), _f(
+            "P10", rf, rf.node, "no terminal mark when a request completes the workflow",
+            "request_workflow_status can drive the workflow to a completed status through the "
+            "workflow table (cancel / fail with nothing in flight, resume of a finished paused "
+            "workflow) but marks no record terminal: the workflow output is then rendered "
+            "without the published contexts (unresolved variables, status failed)"))
     for n, atoms, wf in final:
         inst = ("final", norm_src(n))
         extra = [a for a in atoms if a not in wf]
@@ -1497,4 +1623,51 @@ def rule_P10(ctx):
                 "completed': a workflow that completes (canceled / failed) on an event of a task "
                 "that is itself not completed has no terminal record, and its output is not "
                 "rendered from what was published" % fmt_atoms(extra)))
+    return res
+
+
+# ====================================================================== P11
+def rule_P11(ctx):
+    """A rerun puts its task back on offer: the staged entry that a failed with-items task keeps
+    (flagged `completed`, so that get_staged_tasks hides it) loses that flag whenever a rerun
+    of the task is accepted and the entry exists - under no further condition.  If the flag
+    survives, the rerun is accepted, the workflow becomes resuming, and the task is never
+    offered: non-terminal with nothing to do."""
+    res = RuleResult("P11", "an accepted rerun clears the `completed` flag of the task's staged "
+                            "entry whenever the entry exists (no further condition)")
+    entry = "conducting.WorkflowConductor.request_workflow_rerun"
+    pops = [e for e in effects_of(ctx, entry)
+            if e.path[:2] == ("WS", "staged") and e.path[-1:] == ("completed",)
+            and e.op in ("pop", "delitem", "setitem")]
+    rf = ctx.prog.function(entry)
+    if not pops:
+        res.violated(("completed",), _f(
+            "P11", rf, rf.node, "reset of the completed flag",
+            "the rerun path never clears the `completed` flag of the staged entry of the task "
+            "it reruns: a failed with-items task stays hidden from get_next_tasks"))
+        return res
+    completed = status_set(ctx, "COMPLETED_STATUSES")
+    for e in pops:
+        inst = (e.func.qualname, norm_src(e.node))
+        extra = []
+        for q, a in e.guards:
+            if a[0] == "in" and a[2] == completed:
+                continue  # the rerun precondition
+            if a[0] in ("truthy", "isnot") and "staged" in untag(str(a[1])):
+                continue  # the entry exists
+            if a[0] == "falsy" and "invalid" in str(a[1]):
+                continue  # request validation
+            if a[0] == "in" and "completed" in str(a[1]):
+                continue  # the flag is there
+            if a[0] == "truthy" and str(a[1]).endswith(".has_items()"):
+                continue  # the flag is only ever set for a task with items
+            extra.append(a)
+        if not extra:
+            res.holds(inst)
+        else:
+            res.violated(inst, _f(
+                "P11", e.func, e.node, "reset of the completed flag: " + norm_src(e.node),
+                "the `completed` flag of the staged entry is cleared only under %s: when that "
+                "does not hold the rerun is still accepted but the task is never offered"
+                % fmt_atoms(extra)))
     return res
